@@ -423,6 +423,9 @@ func c07ScanGuards(r *core.R, sc *c07Scanner) {
 			if fn == m.next.Obj {
 				return "next"
 			}
+			if fn == m.start.Obj {
+				return "start"
+			}
 			return ""
 		}
 		switch {
@@ -434,7 +437,7 @@ func c07ScanGuards(r *core.R, sc *c07Scanner) {
 		return ""
 	}
 	what := map[string]string{"next": "the decoder's next-object call", "token": "xml.Decoder.Token", "decode": "xml.Decoder.DecodeElement"}
-	need := map[string]int{"next": errOK | closedOK | ctxOK, "token": errOK | ctxOK, "decode": errOK | ctxSeen}
+	need := map[string]int{"start": closedOK | ctxOK, "next": errOK | closedOK | ctxOK, "token": errOK | ctxOK, "decode": errOK | ctxSeen}
 	bitName := func(b int) []string {
 		var out []string
 		for _, x := range []struct {
@@ -454,6 +457,7 @@ func c07ScanGuards(r *core.R, sc *c07Scanner) {
 		cycle   token.Pos
 	}
 	found := map[string]*res{}
+	startMiss := map[*ast.CallExpr]int{} // per call of the decoder's Start reached from Scan: the missing stop tests
 	t := sc.view.newTracer()
 	if m != nil {
 		t.NoInline = func(fn *types.Func) bool { return fn == m.next.Obj || fn == m.start.Obj }
@@ -500,6 +504,10 @@ func c07ScanGuards(r *core.R, sc *c07Scanner) {
 			if k == "" {
 				return st
 			}
+			if k == "start" {
+				startMiss[call] |= need[k] &^ st
+				return st
+			}
 			rs := found[k]
 			if rs == nil {
 				rs = &res{}
@@ -524,6 +532,9 @@ func c07ScanGuards(r *core.R, sc *c07Scanner) {
 	if len(t.incomplete) > 0 {
 		r.Unknown(rel+".(*Scanner).Scan guards", scanFi.Decl.Pos(), "Scan could not be followed on every path: %s", strings.Join(t.incomplete, "; "))
 		return
+	}
+	if rel == "osmpbf" {
+		c07StopBeforeStart(r, sc, scanFi, startMiss, bitName)
 	}
 	kinds := []string{"next"}
 	if rel == "osmxml" {
